@@ -5,8 +5,8 @@ import ZvbiModel.Generated.XdsFacts
 
 * `Demux.*`  : `vbi_xds_demux_feed`, src/xds_demux.c 852-1011 (stand-alone demultiplexer)
 * `Sep.*`    : the field-2 routing of `vbi_decode_caption` (src/caption.c 1275-1300),
-               `xds_separator` (584-688) and the part of `xds_decoder` (488-530) that acts back on
-               the separator (network name -> `vbi_chsw_reset` -> `memset (cc->sub_packet)`).
+               `xds_separator` (584-688) and the part of `xds_decoder` (488-532) that acts back on
+               the separator (changed network id -> `vbi_chsw_reset` -> `memset (cc->sub_packet)`).
 
 Conventions (DESIGN.md section 3): arrays are lists plus the extent taken from
 `Generated/XdsFacts.lean`; every indexed access is checked and a miss makes the step report an
@@ -20,7 +20,9 @@ the values `translate/gen_xds.py` reads from the current source:
 * `rejectKeeps` (`Gen.Xds.demuxRejectKeepsCurrent`): xds_demux.c 908-914, does a header with an
   unknown class/subclass `goto discard` (resetting the *interrupted* packet) or not;
 * `errClears` (`Gen.Xds.sepErrClearsCurr`): caption.c 597-607, does the parity-error branch clear
-  `cc->curr_sp` (the code only clears the local copy `sp`).
+  `cc->curr_sp` (before commit 34b85fe the code only cleared the local copy `sp`).
+A third fact, `Gen.Xds.sepNuidCompared` (is the network reset guarded by `sum != n->nuid`, commit
+c11abb5), is used directly by `Sep.netDecode`: no theorem depends on which way it is.
 -/
 namespace Zvbi.Xds
 open Zvbi.Hamm Zvbi.Gen.Xds
@@ -186,12 +188,13 @@ end Demux
 /-! ## caption.c -/
 namespace Sep
 
-/-- the fields of `vbi_network` that decide whether `xds_decoder` resets the caption decoder -/
+/-- the fields of `vbi_network` that decide whether `xds_decoder` resets the caption decoder;
+    `nuid = 0` means no network identified yet -/
 structure Net where
   name : List Nat := []
   call : List Nat := []
   cycle : Nat := 0
-  nuidSet : Bool := false
+  nuid : Nat := 0
 deriving Repr, DecidableEq
 
 structure State where
@@ -216,13 +219,27 @@ def strfu (old s : List Nat) : List Nat × Bool :=
   let t := (s.dropWhile (· ≤ 0x20)).map (fun c => max 0x20 c)
   (t, t != old)
 
+/-- `hcrc[i]` as `init_hcrc` fills it: xor of `0x48000000 >> j` over the set bits `j < 7` of `i` -/
+def hcrc (i : Nat) : Nat :=
+  (List.range 7).foldl (fun sum j => if i &&& (1 <<< j) != 0 then sum ^^^ (0x48000000 >>> j) else sum) 0
+
+/-- station id from the call letters (or the name): `for (sum = 0; *s; s++) sum = (sum >> 7) ^
+    hcrc[(sum ^ *s) & 0x7F]; sum &= (1UL << 31) - 1; sum |= 1UL << 30;` -/
+def nuidOf (s : List Nat) : Nat :=
+  let sum := s.foldl (fun sum c => (sum >>> 7) ^^^ hcrc ((sum ^^^ c) &&& 0x7F)) 0
+  (sum &&& 0x7FFFFFFF) ||| 0x40000000
+
 /-- `xds_decoder`, `case XDS_CHANNEL` types 1 and 2: new network state and whether
-    `vbi_chsw_reset` ran -/
+    `vbi_chsw_reset` ran.  `Gen.Xds.sepNuidCompared` (read from the current source) says whether
+    the reset is guarded by `if (sum != n->nuid)`. -/
 def netDecode (n : Net) (p : Pkt) : Net × Bool :=
   if p.cls = 2 ∧ p.sub = 1 then
     let (t, neq) := strfu n.name p.data
     if neq then ({ n with name := t, cycle := 1 }, false)
-    else if n.cycle = 1 then ({ n with name := t, cycle := 3, nuidSet := true }, n.nuidSet)
+    else if n.cycle = 1 then
+      let sum := nuidOf (if n.call.isEmpty then t else n.call)
+      if sepNuidCompared && sum == n.nuid then ({ n with name := t, cycle := 3 }, false)
+      else ({ n with name := t, cycle := 3, nuid := sum }, n.nuid != 0)
     else ({ n with name := t }, false)
   else if p.cls = 2 ∧ p.sub = 2 then
     let (t, neq) := strfu n.call p.data
